@@ -110,6 +110,15 @@ Section Trace.
     match n with 0 => [] | _ => rev (fst (tr_run q (take n) [])) end.
   (* the log of list(an(...).evaluate()) *)
   Definition trace_full (q : query) : list event := rev (fst (tr_run q take_all [])).
+  (* ---- several evaluations one after the other over the SAME variables (the same an(...) object evaluated again, or
+     another query built over the same let-variables): the domain caches and their one-shot generators persist, so the
+     next evaluation starts from the log the previous ones left ([enum] replays what is cached, then goes on pulling).
+     A step (q, m) pulls m results from a fresh q.evaluate() and abandons the iterator. ---- *)
+  Definition run_from (q : query) (m : nat) (s : store) : store :=
+    match m with 0 => s | _ => fst (tr_run q (take (nyields s + m)) s) end.
+  Definition store_seq (steps : list (query * nat)) : store :=
+    fold_left (fun s qm => run_from (fst qm) (snd qm) s) steps [].
+  Definition trace_seq (steps : list (query * nat)) : list event := rev (store_seq steps).
 End Trace.
 
 (* [full trace; trace_0 .. trace_(rows+1)] of a concrete case *)
@@ -119,3 +128,7 @@ Definition c10_traces (c : ecase) : sx :=
   let full := trace_full W D (e_query c) in
   SL [show_trace full;
       SL (map (fun n => show_trace (trace_k W D (e_query c) n)) (seq 0 (length (rows_of full) + 2)))].
+
+(* the log after pulling n results of the case's query, abandoning the iterator, then pulling m results of q2 (same variables) *)
+Definition c10_seq (c : ecase) (n : nat) (q2 : query) (m : nat) : sx :=
+  show_trace (trace_seq (mk_world (e_world c)) (mk_domains (e_doms c)) [(e_query c, n); (q2, m)]).
